@@ -12,7 +12,7 @@ from props import c09
 
 REQUIRED = ['drop_idempotent', 'est_eq_after_deletion', 'incomplete_rows_irrelevant', 'drop_all_eq_complete_case',
             'miss_flag_spec', 'outcome_fit_on_observed', 'std_missing_form', 'iptw_missing_saturated',
-            'gformula_predict_missing', 'tmle_plugin_missing_partial', 'measures_ignore_and_count']
+            'gformula_predict_missing', 'tmle_plugin_missing_partial', 'tmle_missing_saturated', 'measures_ignore_and_count']
 RULE = ('random categorical data sets (1-3 covariates, <= 8 strata, positivity by construction among the complete '
         'rows; outcome binary / normal / count) with outcome missingness none / MCAR / depending on A and L, to which '
         'incomplete rows are added (none / MCAR / selected depending on A and L): copies of rows with the exposure, a '
